@@ -30,6 +30,8 @@ package inputrc
 //@   loop 1 invariant i$0 < end && !uspace(r[i$0]) ==> i == i$0
 //@   loop 1 decreases end - i
 
+// symend(c): the characters that end a symbol (name, value, keyword argument): comment sign, white space, control
+//@ pred symend(c rune) = c == '#' || uspace(c) || ucontrol(c)
 //@ func findEnd
 //@   props C12 C01 C13
 //@   terminates
@@ -37,7 +39,9 @@ package inputrc
 //@   pure
 //@   defines fend
 //@   ensures result >= i && (i <= end ==> result <= end) && (i >= end ==> result == i)
+//@   ensures @C13 [symbol-is-read-from-its-first-character] i <= end ==> all(k, i, result, !symend(r[k])) && (result == end || symend(r[result]))
 //@   loop 1 invariant i >= i$0 && (i$0 <= end ==> i <= end) && (i$0 >= end ==> i == i$0)
+//@   loop 1 invariant i$0 <= end ==> all(k, i$0, i, !symend(r[k])) && c == ite(i < end, r[i], 0)
 //@   loop 1 decreases end - i
 
 //@ func findStringEnd
